@@ -349,6 +349,71 @@ def direction_sweep(res: Result, counter: list[int]) -> dict[str, Any]:
     }
 
 
+def size_sweep(res: Result, counter: list[int]) -> int:
+    """'the wire id equals the registry id of the class sent' whatever the payload size: every client-sendable class that has a string
+    or bytes field, padded to serialized lengths around the varint / byte boundaries, through both transports, decoded independently."""
+    from aioesphomeapi.core import MESSAGE_TYPE_TO_PROTO
+
+    pf = env.proto()
+    ids = env.proto_ids()
+    by_name = {v: k for k, v in ids.items()}
+    targets = (126, 127, 128, 129, 255, 256, 257, 16383, 16384, 16385)
+    n = 0
+    for noise in (False, True):
+        w = ConnWorld(noise=noise)
+        try:
+            w.connect_fully()
+            broken = False
+            for cls in MESSAGE_TYPE_TO_PROTO.values():
+                if broken:
+                    break  # the byte stream is mis-framed from the first wrong frame on
+                name = cls.__name__
+                if name not in by_name or protoparse.source_of(pf, name) == "SOURCE_SERVER":
+                    continue
+                if name in ("DisconnectRequest", "DisconnectResponse"):
+                    continue
+                fld = next((f for f in cls.DESCRIPTOR.fields if f.type in (f.TYPE_STRING, f.TYPE_BYTES) and not pbgen.is_repeated(f)), None)
+                if fld is None:
+                    continue
+                for target in targets:
+                    msg = None
+                    for pad in range(max(0, target - 8), target + 1):
+                        m = cls()
+                        setattr(m, fld.name, ("x" * pad) if fld.type == fld.TYPE_STRING else (b"x" * pad))
+                        if len(m.SerializeToString()) == target:
+                            msg = m
+                            break
+                    if msg is None:
+                        continue
+                    before = len(w.sent_frames())
+                    try:
+                        w.conn.send_message(msg)
+                    except Exception as e:  # noqa: BLE001
+                        res.add(f"size:{name}:{target}:raises", f"sending a {target}-byte {name} raised {type(e).__name__}: {e}")
+                        continue
+                    w.drain()
+                    try:
+                        frames = w.sent_frames()[before:]
+                    except Exception as e:  # noqa: BLE001
+                        res.add(f"size:{'noise' if noise else 'plain'}:{target}", f"a {target}-byte {name} is not decodable on the wire: {type(e).__name__}: {e}")
+                        broken = True
+                        break
+                    counter[0] += 1
+                    n += 1
+                    want = [(by_name[name], msg.SerializeToString())]
+                    if [(t, bytes(p)) for t, p in frames] != want:
+                        got = [(t, ids.get(t, "?"), len(p)) for t, p in frames]
+                        res.add(f"size:{'noise' if noise else 'plain'}:{target}", f"a {name} (id {by_name[name]}) with a {target}-byte payload appears on the wire as "
+                                f"{got} (type, name, payload length)")
+                        broken = True
+                        break
+                if w.conn.connection_state.name != "CONNECTED":
+                    break
+        finally:
+            w.close()
+    return n
+
+
 def dispatch_sweep(res: Result, counter: list[int]) -> int:
     """Receive side of 'positional lookup selects the right class for every id and nothing else is present': every declared id, and the
     ids that would alias onto a declared one if a byte of the type were lost, through both frame helpers of a connected session."""
@@ -468,6 +533,7 @@ def run(tier: str, seed: int) -> Result:
     dispatched = dispatch_sweep(res, counter)
     sweep = direction_sweep(res, counter)
     sweep["frames_dispatched_by_id"] = dispatched
+    sweep["sized_frames_sent"] = size_sweep(res, counter)
     sweep["structural_comparison_repeated_on_backend"] = backend
     if not res.violations and (len(ids) < 100 or sweep["api_calls"] < 150 or len(sweep["types_sent"]) < 40):
         raise HarnessError(f"vacuous: ids={len(ids)} sweep={sweep['api_calls']} sent={len(sweep['types_sent'])}")
